@@ -1,6 +1,9 @@
 """C10 - Results depend only on the arguments: deterministic, isolated, non-mutating."""
 import copy
 import math
+import os
+import pickle
+import struct
 from hypothesis import strategies as st
 
 from .. import lib, gen, build, sched
@@ -29,6 +32,25 @@ SHIP = gen.TABLES
 def _shot_spec():
     return gen.shot(custom=True, look_max_deg=40.0, rel_deg=(-1.0, 5.0), cant=True, max_winds=3, range_ft=600.0, mbc=False,
                     mv_classes=("subsonic", "transonic", "rifle"), atmo_kinds=("icao", "explicit"), max_alt=9000.0)
+
+
+@st.composite
+def _extreme_spec(draw):
+    """shots that reach the edges of the atmosphere model (temperature floor, tropopause, far below / above the station):
+    state leaked into the model's class-level constants shows only there"""
+    spec = draw(gen.shot(custom=False, look_max_deg=0.0, rel_deg=(0.0, 5.0), cant=False, max_winds=1, range_ft=600.0, mbc=False,
+                         mv_classes=("rifle",), atmo_kinds=("icao",), max_alt=9000.0))
+    kind = draw(st.sampled_from(["cold", "cold", "high", "hot-low"]))
+    if kind == "cold":
+        spec["atmo"] = {"kind": "explicit", "alt": draw(st.floats(0.0, 12000.0)), "p_hpa": draw(st.floats(600.0, 1050.0)),
+                        "t_c": draw(st.floats(-89.9, -86.0)), "hum": 0.0}
+    elif kind == "high":
+        spec["atmo"] = {"kind": "icao", "alt": draw(st.floats(34000.0, 36089.0))}
+    else:
+        spec["atmo"] = {"kind": "explicit", "alt": draw(st.floats(-1400.0, 0.0)), "p_hpa": draw(st.floats(1000.0, 1100.0)),
+                        "t_c": draw(st.floats(45.0, 60.0)), "hum": draw(st.floats(0.0, 100.0))}
+    spec["rel"] = draw(st.floats(35.0, 80.0)) * gen.DEG
+    return spec
 
 
 def _cfg():
@@ -81,8 +103,72 @@ def _do(op, calc, shot, keep=None):
     raise AssertionError(name)
 
 
+def _calc_for(cfg):
+    return pb.Calculator(_config=dict(cfg)) if cfg else pb.Calculator()
+
+
+class Pristine:
+    """A child process forked before the first operation of a history. It answers every request in a grandchild forked
+    from itself, so each answer is computed from library state (module globals, class attributes, caches) that no operation
+    of this history - and no earlier request - has touched. The in-process clean-room run shares the process with the
+    history and cannot see a leak through process-global state; this can."""
+
+    def __init__(self):
+        r1, w1 = os.pipe()
+        r2, w2 = os.pipe()
+        self.pid = os.fork()
+        if self.pid == 0:
+            try:
+                os.close(w1)
+                os.close(r2)
+                fin, fout = os.fdopen(r1, "rb"), os.fdopen(w2, "wb")
+                while True:
+                    try:
+                        op, cfg, spec = pickle.load(fin)
+                    except EOFError:
+                        break
+                    rr, ww = os.pipe()
+                    g = os.fork()
+                    if g == 0:
+                        try:
+                            os.close(rr)
+                            try:
+                                out = ("ok", repr(_do(op, _calc_for(cfg), build.shot(spec))))
+                            except BaseException as e:  # noqa
+                                out = ("exc", f"{type(e).__name__}: {e}"[:300])
+                            with os.fdopen(ww, "wb") as f:
+                                pickle.dump(out, f)
+                        finally:
+                            os._exit(0)
+                    os.close(ww)
+                    with os.fdopen(rr, "rb") as f:
+                        data = f.read()
+                    os.waitpid(g, 0)
+                    fout.write(struct.pack("<Q", len(data)) + data)
+                    fout.flush()
+            finally:
+                os._exit(0)
+        os.close(r1)
+        os.close(w2)
+        self.fout, self.fin = os.fdopen(w1, "wb"), os.fdopen(r2, "rb")
+
+    def ask(self, op, cfg, spec):
+        pickle.dump((op, dict(cfg), spec), self.fout)
+        self.fout.flush()
+        n = struct.unpack("<Q", self.fin.read(8))[0]
+        return pickle.loads(self.fin.read(n))
+
+    def close(self):
+        try:
+            self.fout.close()
+            self.fin.close()
+        finally:
+            os.waitpid(self.pid, 0)
+
+
 class History:
     def __init__(self):
+        self.pristine = Pristine() if hasattr(os, "fork") else None   # before anything of this history has run
         self.shots = []     # {"spec": dict, "obj": Shot}
         self.calcs = []     # {"cfg": dict, "obj": Calculator, "last_shot": int|None, "ops": int}
         self.results = []   # (live object, raw snapshot)
@@ -135,7 +221,14 @@ class History:
         keep = []
         before_zero = s["spec"]["zero"]
         live = _do(op, c["obj"], s["obj"], keep)
-        clean = _do(op, pb.Calculator(_config=dict(c["cfg"])) if c["cfg"] else pb.Calculator(), build.shot(s["spec"]))
+        clean = _do(op, _calc_for(c["cfg"]), build.shot(s["spec"]))
+        far = self.pristine.ask(op, c["cfg"], s["spec"]) if self.pristine is not None else None
+        if far is not None and far[0] == "ok" and far[1] != repr(clean) and live == clean:
+            r.bad(f"C10:process-state-dependent-result:{op['op']}", f"{op['op']} computed in this process (fresh calculator, shot rebuilt from the model) differs "
+                  f"from the same computation in a process forked before the history began: an earlier operation left something behind in "
+                  f"process-global state (here {repr(clean)[:110]} vs untouched process {far[1][:110]})")
+        elif far is not None and far[0] == "exc":
+            raise RuntimeError("pristine process failed: " + far[1])
         if live != clean:
             what = "outcome kind" if live[0] != clean[0] else live[0]
             detail = ""
@@ -192,8 +285,10 @@ class History:
     def apply(self, op):
         r = Res()
         name, a = op["op"], op["args"]
-        if name == "new_shot":
+        if name in ("new_shot", "new_shot_extreme"):
             self._new_shot(a["spec"])
+            if name == "new_shot_extreme":
+                self.lab.add("extreme-atmosphere-shot")
         elif name == "new_calc":
             self.calcs.append({"cfg": dict(a["cfg"]), "obj": pb.Calculator(_config=dict(a["cfg"])) if a["cfg"] else pb.Calculator(),
                                "last_shot": None, "ops": 0})
@@ -206,8 +301,27 @@ class History:
         elif name == "construct_unrelated":
             s = self._shot(a["s"])
             dm = s["obj"].ammo.dm
-            k = a["k"] % 4
-            if k == 0:
+            k = a["k"] % 9
+            self.lab.add(f"construct:{k}")
+            if k == 4:
+                pb.Vacuum()
+            elif k == 5:
+                pb.Vacuum(D.Foot(2000.0 + 100.0 * a["k"]), pb.Temperature.Celsius(-30.0 + a["k"]))
+            elif k == 6:
+                cold = pb.Atmo(D.Foot(30000.0), pb.Pressure.hPa(300.0), pb.Temperature.Celsius(-80.0), 0.0)
+                cold.get_density_factor_and_mach_for_altitude(60000.0)
+                pb.Atmo.icao(D.Foot(36000.0)).get_density_factor_and_mach_for_altitude(-1000.0)
+            elif k == 7:
+                pb.Calculator(_config={"max_calc_step_size_feet": 3.0, "cGravityConstant": -10.0, "cMinimumVelocity": 900.0,
+                                       "cMaximumDrop": -3.0, "cMinimumAltitude": 5000.0, "cZeroFindingAccuracy": 0.01, "cMaxIterations": 3})
+                pb.Wind()
+                pb.Wind(V.FPS(5.0), A.Degree(45.0), D.Foot(100.0), max_distance_feet=500.0)
+            elif k == 8:
+                am = pb.Ammo(pb.DragModel(0.2, dm.drag_table), V.FPS(2500.0), pb.Temperature.Celsius(10.0))
+                am.calc_powder_sens(V.FPS(2450.0), pb.Temperature.Celsius(-5.0))
+                am.get_velocity_for_temp(pb.Temperature.Celsius(35.0))
+                pb.Weapon(D.Inch(3.0), D.Inch(-9.0), A.Mil(2.0))
+            elif k == 0:
                 pb.DragModelMultiBC([pb.BCPoint(0.3, Mach=1.0), pb.BCPoint(0.35, V=V.FPS(2400))], dm.drag_table)
             elif k == 1:
                 pb.DragModel(0.4, dm.drag_table, pb.Weight.Grain(150), D.Inch(0.3), D.Inch(1.1))
@@ -269,13 +383,16 @@ class History:
         return out
 
     def close(self):
-        pass
+        if self.pristine is not None:
+            self.pristine.close()
+            self.pristine = None
 
 
 _c, _s = st.integers(0, 2), st.integers(0, 3)
 _R = st.floats(60.0, 900.0)
 H_RULES = {
     "new_shot": st.fixed_dictionaries({"spec": _shot_spec()}),
+    "new_shot_extreme": st.fixed_dictionaries({"spec": _extreme_spec()}),
     "new_calc": st.fixed_dictionaries({"cfg": _cfg()}),
     "zero": st.fixed_dictionaries({"c": _c, "s": _s, "d": st.floats(60.0, 900.0)}),
     "elevation": st.fixed_dictionaries({"c": _c, "s": _s, "d": st.floats(60.0, 900.0)}),
@@ -283,7 +400,7 @@ H_RULES = {
                                    "ts": st.sampled_from([0.0, 0.0, 0.05])}),
     "fire_unreachable": st.fixed_dictionaries({"c": _c, "s": _s, "R": st.just(1.0e5), "step": st.just(2.0e4), "extra": st.booleans()}),
     "danger": st.fixed_dictionaries({"c": _c, "s": _s, "R": st.floats(200.0, 900.0), "at": st.floats(0.1, 0.9), "h": st.floats(1.0, 60.0)}),
-    "construct_unrelated": st.fixed_dictionaries({"s": _s, "k": st.integers(0, 3)}),
+    "construct_unrelated": st.fixed_dictionaries({"s": _s, "k": st.integers(0, 35)}),
     "repeat": st.just({}),
     "edit": st.fixed_dictionaries({"s": _s, "what": st.sampled_from(["bc", "cd", "wind", "humidity", "mv", "look", "twist"]),
                                    "x": st.floats(0.0, 1.0), "j": st.integers(0, 80)}),
@@ -367,7 +484,7 @@ def check_free(case):
 
 def parts(tier):
     return [
-        Part("histories", kind="machine", interp=History, rules=H_RULES, n={"quick": 320, "thorough": 6000},
+        Part("histories", kind="machine", interp=History, rules=H_RULES, n={"quick": 256, "thorough": 6000},
              steps={"quick": 14, "thorough": 30}),
         Part("schedules", strategy=_thread_case(True), check=check_schedule, n={"quick": 160, "thorough": 3200}),
         Part("free-threads", strategy=_thread_case(False), check=check_free, n={"quick": 120, "thorough": 2400}),
